@@ -7,7 +7,7 @@
    mirror the C++ code; Spec functions (C10.Spec) are positional notation and the
    [charconv] / C strtol / [string.conversions] contracts. *)
 From Tetl Require Import Lib.Base C10.Model C10.Spec C10.Digits C10.ProofsFmt C10.ProofsParse
-  C10.ProofsRT C10.ProofsStrto C10.ProofsStrtoC C10.Refuted.
+  C10.ProofsRT C10.ProofsNc C10.ProofsStrto C10.ProofsStrtoC C10.Refuted.
 Local Open Scope Z_scope.
 
 (** ** The specification's numeral is positional notation (spec sanity) *)
@@ -67,6 +67,21 @@ Theorem C10_overflow_checker_exact : forall t base A d,
   would_overflow_m t (ck_of t base) (sig t A) d = (A * base + d >? lim t).
 Proof. exact would_overflow_spec. Qed.
 Print Assumptions C10_overflow_checker_exact.
+
+(* check_overflow = false (nop_overflow_checker): the same end, error and value whenever the
+   checked conversion succeeds; for unsigned types never undefined behaviour and the value is the
+   digit run modulo 2^bits (for int and wider signed types a too long text is signed overflow) *)
+Theorem C10_to_integer_unchecked : forall t skipws plus s base, 2 <= base <= 36 ->
+  (forall n v, 8 <= bits t -> gparse t skipws plus s base = (n, TiNone, v) ->
+     to_integer_nc_m t skipws plus s base = Ok (n, TiNone, v))
+  /\ (sgn t = false -> cxx_width (bits t) ->
+      to_integer_nc_m t skipws plus s base = Ok (nc_unsigned_spec t skipws plus s base)).
+Proof.
+  intros t skipws plus s base Hb. split.
+  - intros n v Hbits Hg. exact (to_integer_nc_agree t skipws plus s base n v Hbits Hb Hg).
+  - intros Hs Hw. exact (to_integer_nc_unsigned t skipws plus s base Hs Hw Hb).
+Qed.
+Print Assumptions C10_to_integer_unchecked.
 
 (** ** from_chars: error class, stored value and consumed length of [charconv.from.chars];
        overflow detected exactly at the limits of the type.  Known finding: on
